@@ -588,8 +588,9 @@ UserGroupHeld == \A k \in 1..MaxInv :
 \* most once per submission
 BodyAtMostOncePerSubmission == bodyStarts <= nsubm
 
-\* model checking: client threads are interchangeable
-Symm == Permutations(Threads)
+\* model checking: client threads are interchangeable.  (TLC evaluates constant definitions eagerly, also when they are
+\* not used: under trace validation Threads is the set of all recorded threads -- 11 threads = 40 million permutations)
+Symm == Permutations(IF Cardinality(Threads) <= 4 THEN Threads ELSE {})
 
 \* liveness
 WaiterReleased == \A t \in Threads : (pc[t] = "w_sleep") ~> (pc[t] # "w_sleep")
